@@ -58,6 +58,7 @@ public:
    Chunk *GetPrev(const E_Scope scope = E_Scope::ALL) const;
    Chunk *GetNextNc(const E_Scope scope = E_Scope::ALL) const;
    Chunk *GetNextNl(const E_Scope scope = E_Scope::ALL) const;
+   Chunk *GetNextNnl(const E_Scope scope = E_Scope::ALL) const;
    Chunk *GetPrevNc(const E_Scope scope = E_Scope::ALL) const;
    Chunk *GetPpStart() const;
    Chunk *GetNextNcNnl(const E_Scope scope = E_Scope::ALL) const;
